@@ -807,7 +807,16 @@ func c02Misc(c *Ctx) {
 				}
 				if !b.Of(e.Results[1], e.Instr).Is("nil") {
 					r.Check(!avoid[e.Instr.Block()], "C02.ckd-data.path-reject-closed", c.ipos(e.Instr), "DeriveKeyFromPath fails only when NewMasterKey or a DeriveChild step fails (every path of every length is derivable)")
+					continue
 				}
+				// … and succeeds only when none of them failed: no success return is reachable once an error was seen
+				okProp := true
+				for _, re := range rej {
+					if re.To == e.Instr.Block() || ana.ReachableFrom(re.To, nil)[e.Instr.Block()] {
+						okProp = false
+					}
+				}
+				r.Check(okProp && len(rej) >= 2, "C02.ckd-data.path-errors-propagated", c.ipos(e.Instr), "a nil error is returned only when NewMasterKey and every DeriveChild step succeeded: no path from a failed step reaches this return")
 			}
 		}
 		r.Check(ok, "C02.ckd-data.path-fold", c.P.Pos(fn.Pos()), "DeriveKeyFromPath = fold DeriveChild over path, in order, from NewMasterKey(seed, curve) (so deriving p then i equals deriving p‖i)")
